@@ -173,6 +173,7 @@ type State struct {
 	MergeOutOfOrder   bool      // a merge happened with an index not above every earlier merge
 	SendBeforeMerge   bool      // a change was sent to the device before being merged into the stored configuration
 	SendOutOfOrder    bool      // a change was sent while an earlier proposal of that target had not finished applying
+	SendAfterLater    bool      // a change was sent to a device after the change of a later transaction
 	SendNotMaster     bool      // a Set was sent with an election id different from the stored mastership term
 	SendWhileUnsynced bool      // a change was sent in a term whose re-push had not completed
 	Crashes           uint8     // number of steps that ended in a process stop
@@ -739,6 +740,11 @@ func ghostSend(t int, el uint8) {
 	}
 	x := CurX
 	S.Devs[t].Got[x] = true
+	// log order at the device: a change (or its repetition after a process stop) never follows a later transaction's change
+	if S.Devs[t].LastSetTx > uint8(x+1) {
+		S.SendAfterLater = true
+	}
+	S.Devs[t].LastSetTx = uint8(x + 1)
 	if c.Committed < uint8(x+1) {
 		S.SendBeforeMerge = true
 	}
@@ -866,6 +872,7 @@ func Step(choice int) {
 			S.Devs[t].Connected = false
 			S.Devs[t].Vals = [NX]PV{}
 			S.Devs[t].MaxElection = 0
+			S.Devs[t].LastSetTx = 0
 			S.Faults++
 		}
 	}
